@@ -89,6 +89,9 @@ def gen_doc(r, with_ext):
     return {"$schema": "http://json-schema.org/draft-07/schema#", "definitions": defs}
 
 
+INPUT_EXPECT = {"input.json": "input.rs", "service.schema.json": "service.schema.rs", "api-2024.01.15.json": "api-2024.01.15.rs",
+                "noext": "noext.rs", "schema.yaml": "schema.rs", "sub/dir.d/in.v2.json": "sub/dir.d/in.v2.rs", "UPPER.JSON": "UPPER.rs"}
+INPUT_NAMES = list(INPUT_EXPECT)
 GRID = [(v, pol) for v in ("1.2.3", "2.0.0", "*", "!") for pol in (None, "Generate", "Allow", "Deny")]
 
 
@@ -404,10 +407,18 @@ def run(tier, seed, replay=None):
         res = results[cid]
         d = os.path.join(wd, cid)
         os.makedirs(d)
-        with open(os.path.join(d, "input.json"), "w") as f:
+        # input file names with one, several and no dots, other extensions, a dot-file and a sub-directory: the default
+        # output is "the input path with extension .rs"
+        in_name = INPUT_NAMES[(int(cid[3:]) // 3) % len(INPUT_NAMES)] if m["out_mode"] == "default" else "input.json"
+        in_stem_rs = INPUT_EXPECT[in_name]
+        os.makedirs(os.path.dirname(os.path.join(d, in_name)), exist_ok=True)
+        with open(os.path.join(d, in_name), "w") as f:
             json.dump(m["doc"], f, indent=r.choice([None, 1, 2]) if False else 1)
+        if in_name != "input.json":
+            # a neighbour that a wrong default path would clobber
+            open(os.path.join(d, "service.rs"), "w").write("// neighbour\n")
         out = {"default": None, "file": "sub_out.rs", "stdout": "-"}[m["out_mode"]]
-        argv = cli_args(m["o"], "input.json", out)
+        argv = cli_args(m["o"], in_name, out)
         env = dict(os.environ)
         env["TYPIFY_VERIF_LOG"] = os.path.join(d, "hooks.log.outside")   # keep the hook log out of the run dir
         env["TYPIFY_VERIF_LOG"] = os.path.join(wd, cid + ".hooks.log")
@@ -419,7 +430,10 @@ def run(tier, seed, replay=None):
         b_ok = vgen.ingest_status(res) == "ok" and res.get("render") == "ok"
         touched = parse_strace(os.path.join(d, "trace.txt"), d)
         after = dir_state(d)
-        writes = sorted(set(k for k in after if k != "input.json") | {p for c, p in touched if p != "input.json"})
+        writes = sorted(set(k for k in after if k not in ("input.json", in_name)) | {p for c, p in touched if p not in ("input.json", in_name)})
+        if in_name != "input.json":
+            if open(os.path.join(d, "service.rs")).read() == "// neighbour\n":
+                writes = [w_ for w_ in writes if w_ != "service.rs"]
         if rc != 0:
             if b_ok:
                 rep.violation("cli_fails_where_builder_succeeds", common.site_of(se[-200:]), det, case=case, options=m["o"])
@@ -431,7 +445,7 @@ def run(tier, seed, replay=None):
         if not b_ok:
             rep.violation("cli_succeeds_where_builder_fails", "-", det, case=case, options=m["o"])
             continue
-        expect = {"default": ["input.rs"], "file": ["sub_out.rs"], "stdout": []}[m["out_mode"]]
+        expect = {"default": [in_stem_rs], "file": ["sub_out.rs"], "stdout": []}[m["out_mode"]]
         if writes != expect:
             rep.violation("cli_output_path", m["out_mode"], dict(det, expected=expect, written=writes, touched=touched),
                           case=case, options=m["o"])
